@@ -587,7 +587,7 @@ def sup_lines(k):
                             break
                         if q['kind'] == 'stat-missing' and q['name'] == r['process']:
                             res = 'badcmd'; break
-                        if q['kind'] == 'fault' and q['call'] == 'pipe':
+                        if q['kind'] == 'fault' and q['call'] in ('pipe', 'fcntl'):     # both fail make_pipes()
                             res = 'pipeerr'; break
                         if q['kind'] == 'fault' and q['call'] == 'fork':
                             res = 'forkerr'; break
